@@ -429,17 +429,6 @@ theorem never_diverges (d : Document) (o : Opts) (m : Mode) (vc : Bool) :
         unfold mainDeps at he
         repeat' (first | contradiction | split at he)
         all_goals cases he
-      · split at h
-        · rename_i e he
-          injection h with h; subst h
-          obtain ⟨p, _, hp⟩ := mapE_error _ _ _ he
-          split at hp
-          · rename_i e' he'
-            injection hp with hp; subst hp
-            unfold partialTarget at he'
-            repeat' (first | contradiction | split at he')
-            all_goals cases he'
-          · cases hp
-        · cases h
+      · cases h
 
 end Slinky.C19
